@@ -16,7 +16,7 @@ Ltac upd_case m n :=
 Ltac unfold_do :=
   unfold do_start, do_grant, do_bump, do_follow, do_count, do_win, do_client_append,
          do_send_append, do_recv_ok, do_recv_ack, do_advance, do_crash, do_lose_grant,
-         do_net_appends, do_drop_ack, do_flush, do_install in *.
+         do_net_appends, do_drop_ack, do_flush, do_install, do_trunc in *.
 
 Section RaftVotes.
 Variable V : list N.
@@ -395,6 +395,9 @@ Proof.
     + intros n0 Hr. upd_case n0 n; simpl; reflexivity.
   - (* install *)
     apply vinv_install; assumption.
+  - (* truncated request *)
+    apply (vinv_frame s _ Hv); unfold do_trunc; simpl;
+      try reflexivity; try apply incl_refl; auto.
 Qed.
 
 Lemma reachable_vinv s : Reachable V s -> vinv s.
